@@ -42,6 +42,8 @@ def generic_main(mod, modname, pid, tier, seed, repo, t0):
     heavy = bool(getattr(mod, "HEAVY", False))
     tasks = list(mod.tasks(tier, seed))
     budget = getattr(mod, "BUDGET_S", {"quick": 240, "thorough": 2400})[tier]
+    if os.environ.get("VERIF_BUDGET_S"):          # smoke runs of a tier under a smaller wall budget (skipped tasks are reported as such)
+        budget = min(budget, int(os.environ["VERIF_BUDGET_S"]))
     opts_base = {"timeout_ms": getattr(mod, "TIMEOUT_MS", {"quick": 10000, "thorough": 120000})[tier],
                  "max_depth": getattr(mod, "MAX_DEPTH", 400), "max_paths": getattr(mod, "MAX_PATHS", 20000),
                  "max_task_s": getattr(mod, "MAX_TASK_S", {"quick": 40, "thorough": 600})[tier]}
